@@ -157,6 +157,104 @@ theorem C17_closest [LinearOrder F] (m : Method) (lt : F → F → Bool)
     · exact hl
     · exact absurd (htie _ hm _ he heq).symm hne
 
+/-- Distance update of `single`/`complete`/`average` (one iteration of `arithmetic_cluster(func)`
+in any state): after merging the closest pair `(a, b)` into the new entry `new = sets.len()`, every
+remaining live entry `i` gets `D(i, new) = func(D(i, a), D(i, b))` — both old distances exist,
+looked up under the `(smaller, larger)` key — and every distance between untouched entries is kept. -/
+theorem C17_update_arith (lt : F → F → Bool) (func : F → F → F) (s s' : State F)
+    (h : arithStep lt func s = some s') :
+    ∃ a b d, closest lt s.dm = some ((a, b), d) ∧
+      (∀ i, isLive s.sets i = true → i ≠ a → i ≠ b →
+        ∃ v1 v2, dmGet s.dm (keyOf i a) = some v1 ∧ dmGet s.dm (keyOf i b) = some v2 ∧
+          dmGet s'.dm (i, s.sets.length) = some (func v1 v2)) ∧
+      (∀ q : Nat × Nat, q.1 ≠ a → q.1 ≠ b → q.2 ≠ a → q.2 ≠ b → q.2 ≠ s.sets.length →
+        dmGet s'.dm q = dmGet s.dm q) :=
+  arithStep_update lt func s s' h
+
+/-- single linkage: `func` is the minimum of the two parts -/
+theorem C17_update_single [LinearOrder F] (lt : F → F → Bool) (hlt : ∀ a b, lt a b = true ↔ a < b)
+    (v1 v2 : F) : fmin lt v1 v2 = min v1 v2 := by
+  unfold fmin
+  by_cases h : v1 < v2
+  · rw [if_pos ((hlt _ _).2 h), min_eq_left (le_of_lt h)]
+  · have : ¬ lt v1 v2 = true := fun hc => h ((hlt _ _).1 hc)
+    rw [if_neg this, min_eq_right (not_lt.1 h)]
+
+/-- complete linkage: `func` is the maximum of the two parts -/
+theorem C17_update_complete [LinearOrder F] (lt : F → F → Bool) (hlt : ∀ a b, lt a b = true ↔ a < b)
+    (v1 v2 : F) : fmax lt v1 v2 = max v1 v2 := by
+  unfold fmax
+  by_cases h : v2 < v1
+  · rw [if_pos ((hlt _ _).2 h), max_eq_left (le_of_lt h)]
+  · have : ¬ lt v2 v1 = true := fun hc => h ((hlt _ _).1 hc)
+    rw [if_neg this, max_eq_right (not_lt.1 h)]
+
+/-- average linkage as implemented: `func` is the caller's `mean` of the two parts (the mean of the
+two direct cluster nodes, `(v1 + v2) / 2` in the code — not weighted by cluster sizes), i.e. the
+step function of `Method.average` is `arithStep` with `mean`; single and complete use `fmin`/`fmax`,
+union the callback on the merged set -/
+theorem C17_update_average (lt : F → F → Bool) (mean : F → F → F) (d : List Nat → List Nat → F) :
+    stepOf .average lt mean d = arithStep lt mean ∧
+    stepOf .single lt mean d = arithStep lt (fmin lt) ∧
+    stepOf .complete lt mean d = arithStep lt (fmax lt) ∧
+    stepOf .union lt mean d = unionStep lt d :=
+  ⟨rfl, rfl, rfl, rfl⟩
+
+/-- union linkage (one iteration of `cluster_set_unions` in any state):
+the two closest sets are replaced by their union (`extend`) appended as the new last entry, and the
+distance callback is called exactly once, with the pairs `(union, live entry)` in index order followed
+by `(union, union)`.
+PARTIAL — proved: the argument sequence of the callback (this theorem) and, in `C17_closest`, that
+the matrix afterwards holds exactly the pairs of live entries.  Not proved (full statement):
+`∀ i, isLive s.sets i → i ≠ a → i ≠ b → dmGet s'.dm (i, s.sets.length) = some (d (x ∪ y) setᵢ)`
+and `dmGet s'.dm q = dmGet s.dm q` for keys `q` not touching `a`, `b`, `s.sets.length`;
+the correspondence check compares these values on every union run. -/
+theorem C17_update_union_partial (lt : F → F → Bool) (d : List Nat → List Nat → F) (s s' : State F)
+    (h : unionStep lt d s = some s') :
+    ∃ a b dist x y, closest lt s.dm = some ((a, b), dist) ∧
+      (s.sets[a]?).join = some x ∧ (s.sets[b]?).join = some y ∧
+      s'.sets = takeTwo s.sets a b ++ [some (Group.insertAll x y)] ∧
+      s'.log = s.log ++ [rowPairs (Group.insertAll x y)
+        (takeTwo s.sets a b ++ [some (Group.insertAll x y)])] := by
+  unfold unionStep at h
+  split at h
+  · cases h
+  · rename_i e he
+    split at h
+    · cases h
+    · split at h
+      · split at h
+        · cases h
+        · rename_i mm hm
+          split at h
+          · cases h
+          · cases h
+            obtain ⟨⟨a, b⟩, dist⟩ := e
+            simp only at hm ⊢
+            unfold mergeSets at hm
+            split at hm
+            · rename_i x y hx hy
+              cases hm
+              exact ⟨a, b, dist, x, y, he, hx, hy, rfl, by rw [combosLast_append_some]⟩
+            · cases hm
+      · cases h
+
+/-- every state in which a merge is performed satisfies the invariant (in particular its matrix
+holds exactly the pairs of live entries), so the update theorems apply to every merge of a run -/
+theorem C17_trace_inv (m : Method) (lt : F → F → Bool) (mean : F → F → F)
+    (d : List Nat → List Nat → F) (members : List (List Nat)) (sf : State F)
+    (h : cluster m lt mean d members = some sf) (k : Nat) (sk : State F)
+    (hk : (trace (stepOf m lt mean d) (members.length + 1) (init d members))[k]? = some sk) :
+    Inv sk ∧ sk.dm ≠ [] ∧ sk.n = members.length := by
+  have hi := inv_init d members
+  have hcard : (liveSet (init d members).sets).card < members.length + 1 := by
+    have := hi.card; simp only [init, List.length_nil, Nat.add_zero] at this ⊢; omega
+  obtain ⟨h1, h2, _, c, _, h5⟩ := trace_spec lt (stepOf m lt mean d)
+    (fun s hs hne => stepOf_step m lt mean d s hs hne) (stepOf_log m lt mean d)
+    (members.length + 1) (init d members) sf hi hcard h k sk hk
+  refine ⟨h1, ?_, by rw [h2]; rfl⟩
+  intro he; rw [he] at h5; simp [closest] at h5
+
 /-! ### non-vacuity -/
 
 /-- four inputs, single linkage over `Nat` distances: the model merges (0,1) at 1, (2,3) at 2 and
@@ -168,6 +266,20 @@ example :
         [[0], [1], [2], [3]]).map fun s =>
       (s.clusters.map fun c => (c.lhs, c.rhs, c.dist, c.size), indicies s.n s.clusters))
     = some ([(0, 1, 1, 2), (2, 3, 2, 2), (4, 5, 5, 4)], [0, 1, 2, 3]) := by
+  decide
+
+/-- the order hypothesis of `C17_closest` / `C17_update_single` is satisfiable (here: `Nat`) -/
+example : ∀ a b : Nat, (decide (a < b) = true ↔ a < b) := by simp
+
+/-- average linkage on four inputs with an exact mean over `Nat` (even distances): after merging
+(0,1) at 2 the distances of the new entry 4 are the means (8+12)/2 = 10 and (10+14)/2 = 12 -/
+example :
+    ((cluster .average (fun a b : Nat => decide (a < b)) (fun a b => (a + b) / 2)
+        (fun a b => match a, b with
+          | [0], [1] => 2 | [2], [3] => 4 | [0], [2] => 8 | [0], [3] => 10 | [1], [2] => 12 | _, _ => 14)
+        [[0], [1], [2], [3]]).map fun s =>
+      s.clusters.map fun c => (c.lhs, c.rhs, c.dist, c.size))
+    = some [(0, 1, 2, 2), (2, 3, 4, 2), (4, 5, 11, 4)] := by
   decide
 
 end Hpo.C17
